@@ -15,7 +15,7 @@ func init() {
 	register(&Property{
 		ID:    "C15",
 		Level: "exploration",
-		Rule: "case i = one history: a service configuration, a freshly built Transcoder, H = 1..80 earlier requests drawn from the hostile corpora (C11 mutations and hostile backend scripts, truncated and corrupt-gzip bodies, " +
+		Rule: "case i = one history: a service configuration, a freshly built Transcoder, H = 1..80 earlier requests drawn from the hostile corpora (C11 mutations and hostile backend scripts, truncated and corrupt-gzip bodies, messages failing inside the decompressor or inflating past the limit in both directions, " +
 			"limit breaches, backend panics recovered like net/http does, huge then tiny messages around the 8 MiB pool cut-off), followed by a fixed probe set of 10 RPCs (all client forms, both codecs, gzip, several sizes). " +
 			"The same probes run on Transcoders that served nothing before. GOMAXPROCS=1 and serial execution make sync.Pool reuse the rule; the pool hooks poison every released buffer (so a missing Reset shows up as poison in an output) " +
 			"and record, per buffer and (de)compressor, which request used it last. oracle: canonical outcome of every probe (backend-observed request and client-observed response, decoded) identical with and without history; no poison bytes in any output. " +
